@@ -85,7 +85,9 @@ def cases(rng, tier):
     # assertions
     for kind in ("client_secret_jwt", "private_key_jwt"):
         for mut in ["none", "iss", "sub", "aud", "aud-list", "aud-superstring", "exp-past", "exp-missing", "jti-missing", "iss-missing", "sub-missing", "aud-missing", "bad-sig", "alg-none",
-                    "unknown-client", "other-clients-key", "type-wrong", "type-missing", "replay", "nbf-future", "iat-future", "exp-within-leeway", "not-registered-method"]:
+                    "unknown-client", "other-clients-key", "type-wrong", "type-missing", "replay", "nbf-future", "iat-future", "exp-within-leeway", "not-registered-method",
+                    # the assertion names a kid the client has not registered: the integrator's key resolver answers None; the forger ships its own key in a jwk header
+                    "unknown-kid-resolver-none", "unknown-kid-own-jwk"]:
             out.append({"op": "assertion", "kind": kind, "mut": mut})
     return out
 
@@ -346,6 +348,18 @@ def impl_assertion(c, store, srv):
     elif mut == "not-registered-method":
         old = store.clients[cid]
         store.clients[cid] = Client(cid, old.client_secret, ["https://c/cb"], "a b", ms.ALL_GRANT_TYPES, ms.ALL_RESPONSE_TYPES, "client_secret_basic", extra=old.extra)
+    if mut in ("unknown-kid-resolver-none", "unknown-kid-own-jwk"):
+        from authlib.jose import OctKey, JsonWebKey
+        header["kid"] = "no-such-kid"
+        forged = OctKey.import_key(b"forger-key-forger-key-forger-key!") if kind == "client_secret_jwt" else JsonWebKey.import_key(R.pem_private(R.keys()["rsa2"]))
+        key = forged
+        if mut == "unknown-kid-own-jwk":
+            header["jwk"] = dict(forged.as_dict(is_private=(kind == "client_secret_jwt")))
+
+        class NoKey(ms.JwtClientAuth):
+            def resolve_client_public_key(self, client, headers):
+                return None if headers.get("kid") == "no-such-kid" else super().resolve_client_public_key(client, headers)
+        srv.register_client_auth_method(NoKey.CLIENT_AUTH_METHOD, NoKey(store))
     tok = jwt.encode(header, claims, key)
     tok = tok.decode() if isinstance(tok, bytes) else tok
     if mut == "bad-sig":
